@@ -268,6 +268,32 @@ def run(chk, replay=None):
         meta.append({'law': 'empirical', 'sizes': sizes, 'n': n, 'd1': d1, 'd2': d2, 'src': conf['src']})
         if n in sizes:
             chk.nontrivial('emp|%s|%d' % (sorted(sizes), n))
+    # ... and on large catalogs, whose sizes differ from the observed number by exactly one event
+    from csep.core.catalogs import CSEPCatalog
+    from csep.core.forecasts import CatalogForecast
+    base = numpy.zeros(100003, dtype=CSEPCatalog.dtype)
+    base['id'] = [b'b%d' % i for i in range(len(base))]
+    base['origin_time'] = 10 ** 12 + numpy.arange(len(base))
+    base['latitude'], base['longitude'], base['depth'], base['magnitude'] = 0.5, 0.5, 5.0, 4.5
+    for sizes, n in (([99999, 100001], 100000), ([100000, 100001, 99999, 100002], 100000), ([100001, 100001, 100003], 100002),
+                     ([99998, 99999], 99999)):
+        fcst = CatalogForecast(catalogs=[CSEPCatalog(data=base[:sz].copy(), catalog_id=i) for i, sz in enumerate(sizes)],
+                               region=world.make_region(), name='big')
+        obs = CSEPCatalog(data=base[:n].copy(), region=world.make_region())
+        r = guarded(ce.number_test, fcst, obs, verbose=False)
+        chk.count()
+        if isinstance(r, Raised):
+            chk.violation('empirical:raised', {'sizes': sizes, 'n': n, 'err': repr(r)})
+            continue
+        ncat = len(sizes)
+        d1, d2 = float(r.quantile[0]), float(r.quantile[1])
+        k1, k2 = int(round(d1 * ncat)), int(round(d2 * ncat))
+        if k1 / ncat != d1 or k2 / ncat != d2:
+            chk.violation('empirical:not a multiple of 1/n_cat', {'sizes': sizes, 'n': n, 'd1': d1, 'd2': d2})
+            continue
+        traces.append({'kind': 'empirical', 'law': 'empirical', 'n': n, 'sizes': sizes, 'ge': k1, 'le': k2, 'r1': [], 'r2': []})
+        meta.append({'law': 'empirical', 'sizes': sizes, 'n': n, 'd1': d1, 'd2': d2, 'src': 'list'})
+        chk.nontrivial('emp-large|%s|%d' % (sizes, n))
     # negative controls
     import copy
     ctl = copy.deepcopy(next(t for t in traces if t['kind'] == 'empirical'))
